@@ -45,14 +45,14 @@ def scenarios(quick):
     S.append((sched_req([("acc0", 0), ("acc0", 0)], script=[{"kind": "newOrder", "nth": 0, "answer": "err:accountDoesNotExist:400"}],
                         name="s4-ca-reports-account-unknown"), 2))
     S.append((sched_req([("acc0", 0), ("acc0", 0)], contacts=["new@example.org"], warmup={"contacts": ["old@example.org"]}, name="s5-pending-contact-change"), 2))
-    S.append((sched_req([("acc0", 0), ("acc0", 0)], key_type="ecdsa-p384", warmup={"key_type": "ecdsa-p256"}, name="s5b-pending-key-rollover"), 2))
+    S.append((sched_req([("acc0", 0), ("acc0", 0)], key_type="ecdsa-p384", warmup={"key_type": "ecdsa-p256"}, name="s5b-pending-key-rollover"), 1 if quick else 2))
     S.append((sched_req([("acc0", 0), ("acc0", 0)], warmup={}, after_warmup=[{"op": "ca_forget", "ca": 0}], name="s5c-ca-forgot-registered-account"), 2))
     S.append((sched_req([("acc0", 0), ("acc0", 0), ("acc1", 0)], accounts=("acc0", "acc1"), name="s6-three-certificates"), 1))
     # pending authorizations: the challenge path (proof from the account key, challenge POST, polling) is part of the schedule
     S.append((sched_req([("acc0", 0), ("acc0", 0)], pending=True, name="s1p-same-account-same-endpoint-pending-authz"), 2))
     S.append((sched_req([("acc0", 0), ("acc0", 1)], n_ca=2, pending=True, name="s2p-same-account-two-endpoints-pending-authz"), 2))
     S.append((sched_req([("acc0", 0), ("acc0", 1)], n_ca=2, key_type="ecdsa-p384", contacts=["new@example.org"], warmup={"key_type": "ecdsa-p256", "contacts": ["old@example.org"]},
-                        name="s2b-two-endpoints-pending-key-and-contact-change"), 2))
+                        name="s2b-two-endpoints-pending-key-and-contact-change"), 1 if quick else 2))
     if not quick:
         # every sharing pattern of 3 certificates over 2 accounts and 2 endpoints (up to renaming)
         seen = set()
@@ -192,7 +192,7 @@ def run(ctx):
                 res.violation(oracle, sig, ex, ob, replay=r)
 
         ntasks = len(base["meta"]["certs"])
-        stateful_here = (ntasks == 2 and (not ctx.quick or name.startswith(("s1-", "s1p", "s2-", "s2p", "s3", "s5c")))) or (ntasks == 3 and not ctx.quick)
+        stateful_here = (ntasks == 2 and (not ctx.quick or name.startswith(("s1-", "s1p", "s2-", "s2p", "s3")))) or (ntasks == 3 and not ctx.quick)
         if ctx.quick and stateful_here:
             bound = 1  # the exhaustive search below subsumes the deviation-bounded one; keep bound 1 as a cross-check
         st = explore(ctx.pool, base, bound, on_exec)
